@@ -29,11 +29,13 @@ Forms == {"key_plain", "key_all", "key_of", "seq_all", "seq_of", "idl_all", "idl
 Thresholded == {"key_of", "seq_of", "idl_of", "seqm_of"}
 (* families of member lists: position i -> member value *)
 Letter(i) == <<96 + i>>
-Families == {"aho", "mixed", "icmix", "num", "bool", "nested", "restar"}
+Families == {"aho", "mixed", "icmix", "num", "bool", "nested", "restar", "irx"}
 Memb(f, i) ==
   CASE f = "aho"   -> ContainsP(Letter(i))
     [] f = "mixed" -> IF i % 2 = 0 THEN Rx(<<RxC(96 + i)>>, FALSE) ELSE ContainsP(Letter(i))
     [] f = "icmix" -> IF i % 2 = 0 THEN Pat("contains", TRUE, <<64 + i>>) ELSE ContainsP(Letter(i))
+    (* irx: every member a case-insensitive regex - the whole list is ONE case-insensitive set *)
+    [] f = "irx"   -> Rx(<<RxC(64 + i)>>, TRUE)
     [] f = "num"   -> (CASE i = 1 -> NumV(MkInt(FALSE, <<2>>)) [] i = 2 -> CmpV("gt", MkInt(FALSE, <<0>>))
                          [] i = 3 -> CmpV("lt", MkInt(FALSE, <<5>>)) [] i = 4 -> CmpV("ge", MkInt(FALSE, <<2>>))
                          [] OTHER -> CmpV("le", MkInt(FALSE, <<7>>)))
@@ -51,7 +53,7 @@ MaxKOf(f) == IF f = "bool" THEN 2 ELSE MaxK
 Init == /\ pc = "gen" /\ form \in Forms /\ fam \in Families /\ k \in 1..MaxK /\ k <= MaxKOf(fam)
         /\ n \in (IF form \in Thresholded THEN 0..(k + 1) ELSE {0})
         /\ (form \in {"seq_all", "seq_of", "seqm_all", "seqm_of"} => fam \in {"aho", "mixed", "num", "bool"})
-        /\ (fam = "restar" => form \in {"key_plain", "key_all", "key_of"})
+        /\ (fam \in {"restar", "irx"} => form \in {"key_plain", "key_all", "key_of"})
 Next == pc = "gen" /\ pc' = "done" /\ UNCHANGED <<form, fam, k, n>>
 Spec == Init /\ [][Next]_vars
 
@@ -110,7 +112,7 @@ NestedDoc(v) == OV(<< <<F, OV(Flat([i \in 1..k |-> << <<Letter(i), SV(IF v[i] TH
 DocSet ==
   (IF PerField THEN {PerFieldDoc(v) : v \in Vectors}
                     \cup (IF Shared THEN {PartialDoc(v, w) : v \in Vectors, w \in Vectors} ELSE {})
-   ELSE CASE fam \in {"aho", "mixed", "icmix"} -> {StrDoc(v) : v \in Vectors}
+   ELSE CASE fam \in {"aho", "mixed", "icmix", "irx"} -> {StrDoc(v) : v \in Vectors}
           [] fam = "restar" -> {OV(<< <<F, SV(h)>> >>) : h \in {<<97>>, <<98>>, <<97, 98>>, <<122>>, <<97, 98, 99>>}}
           [] fam = "num" -> NumDocs
           [] fam = "bool" -> BoolDocs
